@@ -1,5 +1,6 @@
 import Thanos.Common.Parse
 import Thanos.Model.Iter
+import Thanos.Model.ChunkMerge
 /-
   Line-protocol driver of the `dedup` family (C01 C02 C04 C40).
   One request per line, one answer per line; every line is self-contained.
@@ -10,6 +11,12 @@ import Thanos.Model.Iter
      replicas = r;r;…      r = e (no samples) | t:v,t:v,…     (integers)
      calls    = c,c,…      c = n (Next) | s<t> (Seek t) | d (Next until ValNone)
      answer   = o,o,…      o = t:v (At() after a successful call) | x (ValNone) | panic (trace ends)
+
+  cm.merge <series>                      (C40)   NewChunkSeriesMerger over aggregate chunk series
+     series   = S|S|…      S = chunk;chunk;…
+     chunk    = mint/maxt/A0/A1/A2/A3/A4        Ai = n (aggregate absent) | e (no samples) | t:v,t:v,…
+                (A0..A4 = count, sum, min, max, counter)
+     answer   = chunk;chunk;… of the merged series | - (no chunk) | panic
 -/
 open Thanos Thanos.Parse
 
@@ -76,6 +83,39 @@ def runD (o : Ops σ) : List DCall → σ → List Obs
       | none => [.panic]
     else .none :: runD o cs r.1
 
+def parseAggr (s : String) : Option (Option (List Sample)) :=
+  if s = "n" then some none
+  else if s = "e" then some (some [])
+  else ((splitChar ',' s).mapM parseSample).map some
+
+def parseChunk (s : String) : Option AggrChk :=
+  match splitChar '/' s with
+  | [mint, maxt, a0, a1, a2, a3, a4] => do
+    let mint ← parseInt? mint
+    let maxt ← parseInt? maxt
+    let aggr ← [a0, a1, a2, a3, a4].mapM parseAggr
+    pure { mint := mint, maxt := maxt, aggr := aggr }
+  | _ => none
+
+def parseSeries (s : String) : Option (List (List AggrChk)) :=
+  (splitChar '|' s).mapM fun x => (splitChar ';' x).mapM parseChunk
+
+def showSamples (l : List Sample) : String :=
+  if l.isEmpty then "e" else ",".intercalate (l.map fun s => s!"{s.t}:{s.v}")
+
+def showAggr : Option (List Sample) → String
+  | none => "n"
+  | some l => showSamples l
+
+def showChunk (c : AggrChk) : String :=
+  "/".intercalate ([toString c.mint, toString c.maxt] ++ c.aggr.map showAggr)
+
+/-- which `toChunk` the driver runs: the one of the tree the model follows -/
+def chunkFixed : Bool := true
+
+/-- `seriesToChunkEncoderSplit` of the vendored Prometheus -/
+def split : Nat := 120
+
 /-- which `dedupSeriesIterator.Seek` the driver runs: the one of the tree the model follows -/
 def seekFixed : Bool := true
 
@@ -86,6 +126,13 @@ def handle : List String → String
       let it := mk seekFixed (isCounterFn f) r rs
       joinWith "," ((runD it.ops cs it.st).map showObs)
     | _, _ => "bad-op"
+  | ["cm.merge", series] =>
+    match parseSeries series with
+    | some ss =>
+      match chunkMerge seekFixed chunkFixed split ss with
+      | some cs => joinWith ";" (cs.map showChunk)
+      | none => "panic"
+    | none => "bad-op"
   | _ => "bad-op"
 
 end Thanos.Driver.Dedup
